@@ -74,7 +74,7 @@ def plot_burst_detect_summary(df_features, sig, fs, threshold_kwargs, xlim=None,
     """
 
     # Ensure arguments are within valid range
-    check_param_range(fs, 'fs', (0, np.inf))
+    check_param_range(fs, 'fs', (np.finfo(float).tiny, np.inf))      # strictly positive
 
     # Normalize signal
     sig_full = zscore(sig)
@@ -211,7 +211,7 @@ def plot_burst_detect_param(df_features, sig, fs, burst_param, thresh,
     """
 
     # Ensure arguments are within valid range
-    check_param_range(fs, 'fs', (0, np.inf))
+    check_param_range(fs, 'fs', (np.finfo(float).tiny, np.inf))      # strictly positive
 
     # Set default kwargs
     figsize = kwargs.pop('figsize', (15, 3))
